@@ -3,6 +3,7 @@ CONSTANTS
  NK = 5
  MaxLayer = 2
  MaxH = 2
+ Restore = TRUE
  AsIs = FALSE
-INVARIANTS NoFailure Agrees SeekOK
+INVARIANTS NoFailure Agrees SeekOK RetrySafe
 CHECK_DEADLOCK FALSE
